@@ -2063,7 +2063,7 @@ class _GroupElem(ABC):
             # This matrix can be used to project points with (x, y, z) coordinates into the element's (i, j, k) coordinate system.
             matrixType = MatrixType.mass
             jacobian_e_pg = self.Get_jacobian_e_pg(matrixType, absoluteValues=False)
-            invF_e_pg = self.Get_invF_e_pg(matrixType)
+            invF_e_pg = np.asarray(self.Get_invF_e_pg(matrixType))
             N_tild = self._N()
             xiOrigin = self.origin  # origin of the reference element (ξ0,η0)
 
